@@ -9,6 +9,7 @@ import (
 	"os"
 	"path/filepath"
 	"runtime"
+	"sort"
 	"strings"
 	"time"
 
@@ -20,6 +21,10 @@ const verifDir = "/verif"
 const modPath = "github.com/AdguardTeam/golibs"
 
 // buildOverlay maps harness and runtime files into /repo.
+// overlayFilter, when non-empty, restricts harness files to common*.go and
+// files starting with this prefix (the lower-case property id).
+var overlayFilter string
+
 func buildOverlay(pkgDirs []string) (map[string]string, error) {
 	ov := map[string]string{}
 	rt, _ := filepath.Glob(filepath.Join(verifDir, "rt/verifrt/*.go"))
@@ -29,7 +34,11 @@ func buildOverlay(pkgDirs []string) (map[string]string, error) {
 	for _, d := range pkgDirs {
 		hs, _ := filepath.Glob(filepath.Join(verifDir, "harness", d, "*.go"))
 		for _, f := range hs {
-			ov[filepath.Join(repoDir, d, "zz_verif_"+filepath.Base(f))] = f
+			base := filepath.Base(f)
+			if overlayFilter != "" && !strings.HasPrefix(base, "common") && !strings.HasPrefix(base, overlayFilter) {
+				continue
+			}
+			ov[filepath.Join(repoDir, d, "zz_verif_"+base)] = f
 		}
 	}
 	return ov, nil
@@ -39,6 +48,30 @@ func loadProgram(pkgDirs []string) (*sym.Program, error) {
 	ov, err := buildOverlay(pkgDirs)
 	if err != nil {
 		return nil, err
+	}
+	// generated harness parts of every registered check on these packages
+	genDir, err := os.MkdirTemp("", "gosym-gen-")
+	if err != nil {
+		return nil, err
+	}
+	defer os.RemoveAll(genDir)
+	for _, pc := range registry {
+		if pc.Gen == nil {
+			continue
+		}
+		for _, d := range pc.Dirs {
+			for _, pd := range pkgDirs {
+				if d == pd {
+					g, err := pc.Gen(genDir)
+					if err != nil {
+						return nil, err
+					}
+					for k, v := range g {
+						ov[k] = v
+					}
+				}
+			}
+		}
 	}
 	var pats []string
 	for _, d := range pkgDirs {
@@ -120,6 +153,23 @@ func printResult(res *sym.HarnessResult) {
 		}
 		b, _ := json.Marshal(s)
 		fmt.Printf("  sample: %s\n", b)
+	}
+	if res.SolverWhat != nil {
+		type kv struct {
+			k string
+			v int
+		}
+		var kvs []kv
+		for k, v := range res.SolverWhat {
+			kvs = append(kvs, kv{k, v})
+		}
+		sort.Slice(kvs, func(i, j int) bool { return kvs[i].v > kvs[j].v })
+		for i, e := range kvs {
+			if i > 15 {
+				break
+			}
+			fmt.Printf("  solver-decided: %6d %s\n", e.v, e.k)
+		}
 	}
 	var fns []string
 	for k := range res.Funcs {
